@@ -65,8 +65,8 @@ _alabels = [R.alabel(l) for l in G.IDN_POOL]
 raw_label = st.one_of(
     st.sampled_from(_dict_labels),
     st.sampled_from(_alabels),
-    st.sampled_from(_alabels).flatmap(lambda a: st.tuples(st.integers(0, 70), st.integers(0, 255)).map(
-        lambda t: (a[:t[0] % len(a)] + bytes([t[1]]) + a[t[0] % len(a) + 1:]))),
+    st.tuples(st.sampled_from(_alabels), st.integers(0, 70), st.integers(0, 255)).map(
+        lambda t: (t[0][:t[1] % len(t[0])] + bytes([t[2]]) + t[0][t[1] % len(t[0]) + 1:])),
     st.sampled_from(_alabels).map(lambda a: a.upper()),
     st.sampled_from(_alabels).map(lambda a: a[:4] + a[4:].upper()),
     st.sampled_from(_alabels).map(lambda a: a[:-1]),
@@ -177,16 +177,16 @@ def chain_packet(n: int, end: str, rr: bool) -> bytes:
     return hdr + pre + add
 
 
-_chain_n = st.one_of(st.integers(0, 40), st.integers(0, 2500), st.sampled_from([900, 990, 1000, 1100, 3000, 8000]))
+_chain_n = st.one_of(st.integers(0, 40), st.integers(0, 40), st.integers(0, 40), st.integers(0, 1200))
 
 
 def strategy(ctx):
-    msg = G.message(G.label_any, allow_comp=False)
+    msg = G.message(allow_comp=False, odd=True)
     return st.one_of(
         msg.map(lambda d: {"k": "msg", "d": d}),
         msg.map(lambda d: {"k": "msg", "d": d}),
         packet.map(lambda b: {"k": "bytes", "b": b}),
-        st.tuples(G.message(G.label), st.lists(_mutation, min_size=0, max_size=4)).map(
+        st.tuples(G.message(odd=False), st.lists(_mutation, min_size=0, max_size=4)).map(
             lambda t: {"k": "mut", "d": t[0], "m": t[1]}),
         st.tuples(st.lists(raw_label, min_size=1, max_size=4), st.integers(-1, 40), st.booleans()).map(
             lambda t: {"k": "labels", "l": [x[:63] for x in t[0]], "end": t[1], "rr": t[2]}),
@@ -291,7 +291,9 @@ def check_msg(d, ctx):
         ctx.fail("roundtrip-decode-rejects", "unpack(packed) raised struct.error: %s" % e)
         return
     except Exception as e:
-        ctx.crash(e)
+        ptr = any(_ptrlike_nonname(x.type, x.data) for x in m.answers + m.authorities + m.additionals)
+        ctx.fail("roundtrip-raises%s:%s" % ("-ptrlike" if ptr else "", type(e).__name__),
+                 "unpack(packed) of a well-formed message raised %r" % (e,))
         return
     if back != m:
         what = _diff_msgs(m, back)
@@ -305,7 +307,7 @@ def check_msg(d, ctx):
                              "RDATA %s came back as %s" % (x.data.hex(), y.data.hex()))
                     break
         else:
-            ctx.fail("roundtrip:" + what, "in: %r\nout: %r" % (m, back))
+            ctx.fail("roundtrip:" + what, "in: %.600r\nout: %.600r" % (m, back))
 
 
 def check_bytes(b: bytes, ctx, cls: str):
@@ -355,7 +357,23 @@ def check_bytes(b: bytes, ctx, cls: str):
             ctx.crash(e, "redecode-raises")
             return
         if m2 != m:
-            ctx.fail("reencode-unstable:" + _diff_msgs(m, m2), "first: %r\nsecond: %r" % (m, m2))
+            what = _diff_msgs(m, m2)
+            if what.startswith("rdata:"):
+                a = m.answers + m.authorities + m.additionals
+                c = m2.answers + m2.authorities + m2.additionals
+                i = [x.data != y.data for x, y in zip(a, c)].index(True)
+                try:
+                    rrs = [r for s in R.decode(b).sections for r in s]
+                    cause = R.rr_hazard(rrs[i])
+                    if cause in ("badname", "comp", "multicomp") and a[i].data == rrs[i].rdata:
+                        cause = "kept"  # the first decode left a compression pointer unexpanded in name-bearing RDATA
+                except R.DecodeError:
+                    cause = "refreject"
+                ctx.fail("reencode-unstable-rdata-%s:%s" % (cause, R.type_name(a[i].type)),
+                         "wire RDATA %s first decoded as %s, after re-encoding as %s" % (
+                             rrs[i].rdata.hex() if cause != "refreject" else "?", a[i].data.hex()[:300], c[i].data.hex()[:300]))
+            else:
+                ctx.fail("reencode-unstable:" + what, "first: %.600r\nsecond: %.600r" % (m, m2))
     finally:
         signal.alarm(0)
         signal.signal(signal.SIGALRM, old)
